@@ -34,6 +34,8 @@ pub struct TimerReq {
   pub at: u64,
   pub ticks: u64,
   pub step: u64,
+  /// the duration exactly as requested
+  pub dur: Duration,
 }
 
 #[derive(Default)]
@@ -60,7 +62,7 @@ fn new_vtimer(d: Duration) -> BoxFuture<'static, ()> {
     let t = to_ticks(d);
     let due = w.now + t;
     let (at, step) = (w.now, w.step);
-    w.timer_log.push(TimerReq { at, ticks: t, step });
+    w.timer_log.push(TimerReq { at, ticks: t, step, dur: d });
     w.timers.push(Timer { due, waker: None, done: false });
     w.timers.len() - 1
   });
